@@ -250,6 +250,15 @@ fn perform(st: &mut State, op: &Json, idx: usize) {
                     let e = Entity::Frozen { fm: fm.clone(), recorded: recorded.clone() };
                     st.entities.push(Some(e));
                 }
+                Some(Some(Entity::Handle { h, recorded })) => {
+                    let e = Entity::Handle { h: h.clone(), recorded: recorded.clone() };
+                    bump(st, "probe.handles_cloned");
+                    st.entities.push(Some(e));
+                }
+                Some(Some(Entity::Globals { g, recorded })) => {
+                    let e = Entity::Globals { g: g.clone(), recorded: recorded.clone() };
+                    st.entities.push(Some(e));
+                }
                 _ => st.entities.push(None),
             }
         }
@@ -743,7 +752,11 @@ impl World for C13 {
                 ops.push(json!({"op": "import_public", "thread": thread, "target": t, "name": wl.below(64)}));
                 ents.push(G::Frozen(vec![("held".to_owned(), Kind::List), ("geti".to_owned(), Kind::Func1)]));
             } else if r < 36 {
-                let t = frozen[wl.usize(frozen.len())];
+                // a clone of a frozen module, of a handle or of globals (dropped independently later)
+                let mut cands = frozen.clone();
+                cands.extend(handles.iter().copied());
+                cands.extend(globals.iter().copied());
+                let t = cands[wl.usize(cands.len())];
                 ops.push(json!({"op": "clone", "thread": thread, "target": t}));
                 ents.push(ents[t].clone());
             } else if r < 52 {
